@@ -14,6 +14,7 @@ import (
 	"strings"
 	"testing"
 	"testing/synctest"
+	"time"
 
 	"verif/sim/simrt"
 )
@@ -255,4 +256,12 @@ func envOr(k, d string) string {
 		return v
 	}
 	return d
+}
+
+// offGrid is added to every duration the harnesses sleep for: timers of the code under
+// test fall on whole milliseconds (ticks of TTL/3, 500 ms polls), and a harness action
+// landing on exactly the same virtual instant as such a timer would hand the outcome to
+// Go's random choice among ready select cases, which no seed controls.
+func offGrid(who int) time.Duration {
+	return 333*time.Microsecond + time.Duration(who)*7*time.Microsecond
 }
